@@ -490,4 +490,65 @@ theorem local_live (c : Cfg ε) (s s' : DState ε) (e : ε) (nt : Notif ε) (ch 
     simp only [maybeCache_table]
     exact checkAgainstPatterns_live c e t1 s.nextId acc hcp ph pa id h1
 
+
+/-- **`_check_against_runs`, one key**: what is kept under the key and which announced records name it are
+those of the single run stored under it. -/
+theorem checkAgainstRuns_perkey (e : ε) (t : Table ε) (h : TableWF t) (ph pa id : String) :
+    (checkAgainstRuns e t).1.runAt ph pa id = (contribOf e ph (t.runAt ph pa id)).keep.head? ∧
+    (checkAgainstRuns e t).2.1.filter (keyMatch ph pa id) = (contribOf e ph (t.runAt ph pa id)).hc ∧
+    (checkAgainstRuns e t).2.2.1.filter (keyMatch ph pa id) = (contribOf e ph (t.runAt ph pa id)).hi ∧
+    (checkAgainstRuns e t).2.2.2.filter (keyMatch ph pa id) = (contribOf e ph (t.runAt ph pa id)).upd := by
+  obtain ⟨hl1, hl2, hl3⟩ := checkAgainstRuns_lists e t
+  have f1 := buckets_filter_key t h ph pa id (fun bph brs => (procBucket e bph brs).hc) (by simp [procBucket_nil])
+    (fun bph bpa brs hn => (hc_hi_keys e bph bpa brs hn).1)
+  have f2 := buckets_filter_key t h ph pa id (fun bph brs => (procBucket e bph brs).hi) (by simp [procBucket_nil])
+    (fun bph bpa brs hn => (hc_hi_keys e bph bpa brs hn).2)
+  have f3 := buckets_filter_key t h ph pa id (fun bph brs => (procBucket e bph brs).upd) (by simp [procBucket_nil])
+    (fun bph bpa brs hn => upd_keys e bph bpa brs hn)
+  obtain ⟨x1, x2, x3, x4⟩ := procBucket_exact e ph pa id (t.runsFrom ph pa) (h.ids ph pa) (h.names ph pa)
+  refine ⟨?_, ?_, ?_, ?_⟩
+  · rw [runAt_def, runsFrom_checkAgainstRuns, x1, runAt_def]
+  · rw [hl1, f1, x3, runAt_def]
+  · rw [hl2, f2, x4, runAt_def]
+  · rw [hl3, f3, x2, runAt_def]
+
+
+/-- one run contributes at most one finished record. -/
+theorem contribOf_finished_le_one (e : ε) (ph : String) (o : Option (LRun ε)) :
+    (contribOf e ph o).hc.length + (contribOf e ph o).hi.length ≤ 1 := by
+  cases o with
+  | none => simp [contribOf]
+  | some r =>
+    simp only [contribOf]
+    have hs := contrib_shape e ph r
+    generalize contrib e ph r = cr at hs
+    cases hs <;> simp
+
+/-- a list of records in which no key is named twice and equal identifiers mean equal keys has distinct identifiers. -/
+theorem nodup_ids_of_key_unique (l : List (Rec ε))
+    (hlen : ∀ ph pa id, (l.filter (keyMatch ph pa id)).length ≤ 1)
+    (hkey : ∀ x ∈ l, ∀ y ∈ l, x.id = y.id → x.phen = y.phen ∧ x.pat = y.pat) : (l.map (·.id)).Nodup := by
+  induction l with
+  | nil => simp
+  | cons x rest ih =>
+    simp only [List.map_cons, List.nodup_cons]
+    refine ⟨?_, ih ?_ ?_⟩
+    · intro hm
+      obtain ⟨y, hy, hye⟩ := List.mem_map.mp hm
+      obtain ⟨k1, k2⟩ := hkey x (List.mem_cons_self ..) y (List.mem_cons_of_mem _ hy) hye.symm
+      have hkx : keyMatch x.phen x.pat x.id x = true := (keyMatch_iff _ _ _ x).mpr ⟨rfl, rfl, rfl⟩
+      have hky : keyMatch x.phen x.pat x.id y = true := (keyMatch_iff _ _ _ y).mpr ⟨k1, k2, hye.symm⟩
+      have := hlen x.phen x.pat x.id
+      simp only [List.filter_cons, hkx, if_true, List.length_cons] at this
+      have hpos : 0 < (rest.filter (keyMatch x.phen x.pat x.id)).length :=
+        List.length_pos_of_mem (List.mem_filter.mpr ⟨hy, hky⟩)
+      omega
+    · intro ph pa id
+      have := hlen ph pa id
+      simp only [List.filter_cons] at this
+      split at this
+      · simp only [List.length_cons] at this; omega
+      · exact this
+    · exact fun a ha b hb => hkey a (List.mem_cons_of_mem _ ha) b (List.mem_cons_of_mem _ hb)
+
 end Bobo.Decider
